@@ -2,7 +2,7 @@
    Directives in use: those of ExtrOcamlBasic (bool, option, unit, list, prod, sumbool, sumor, comparison as
    OCaml's own types) and nothing else; Z/positive/N/nat/string/ascii stay the extracted inductives. *)
 From Coq Require Import Extraction ExtrOcamlBasic ZArith String List.
-From TLX Require Import PyLib SuiteTypes SuiteParser SuiteTable Iana QuicPn Rfc9000 Varint QuicFrames FrameTable Checksum Crypto KeySchedule QuicKeys Packet Reassembly Decryptor TlsSession OutputBuilder Frames PcapngWriter QuicDissector QuicTls QuicSession Main Cli Keylog PcapngReader TimeConv.
+From TLX Require Import PyLib SuiteTypes SuiteParser SuiteTable Iana QuicPn Rfc9000 Varint QuicFrames FrameTable Checksum Crypto KeySchedule QuicKeys Packet Reassembly Decryptor TlsSession OutputBuilder Frames PcapngWriter QuicDissector QuicTls QuicSession Main Cli Keylog PcapngReader TimeConv PcapLegacy.
 
 Definition x_suite (c : Z) : option suite := split_cipher_suite table parts c.
 Definition x_denote (n : string) : option denotation := denote n.
@@ -34,5 +34,6 @@ Definition x_keylog := get_keys_from_string.
 Definition x_pcapng := parse_file.
 Definition x_time_us := time_us.
 Definition x_legacy_us := legacy_us.
+Definition x_read_legacy := read_legacy.
 
-Extraction "model.ml" x_legacy_us x_time_us x_pcapng x_keylog x_cli x_run x_run_tls x_write_file x_derive_session_keys x_dev_initial_keys x_dev_quic_keys x_key_update x_prf_ssl_30 x_prf_tls_10_11 x_prf_tls_12 x_gen_ms_12 x_make_info x_cksum x_occ x_parse_frames x_varint x_varint_len x_full_pn x_rfc_pn x_quic_nonce x_suite x_denote x_iana index from_be to_be Z.add Z.mul Z.div Z.modulo Z.eqb Z.ltb.
+Extraction "model.ml" x_read_legacy x_legacy_us x_time_us x_pcapng x_keylog x_cli x_run x_run_tls x_write_file x_derive_session_keys x_dev_initial_keys x_dev_quic_keys x_key_update x_prf_ssl_30 x_prf_tls_10_11 x_prf_tls_12 x_gen_ms_12 x_make_info x_cksum x_occ x_parse_frames x_varint x_varint_len x_full_pn x_rfc_pn x_quic_nonce x_suite x_denote x_iana index from_be to_be Z.add Z.mul Z.div Z.modulo Z.eqb Z.ltb.
